@@ -139,7 +139,7 @@ def f_isnan : Ctor :=
     outVar := .none, ret := .field "Y" }
 
 def f_reduce_max : Ctor :=
-  { pyName := "v20.reduce_max", cls := Generated.Ctors.v18.cls_ReduceMax,
+  { pyName := "v20.reduce_max", cls := Generated.Ctors.v20.cls_ReduceMax,
     params := [⟨"data", false, .var, none⟩, ⟨"axes", false, .optVar, some Val.none⟩, ⟨"keepdims", true, .attr, some (Val.int 1)⟩, ⟨"noop_with_empty_axes", true, .attr, some (Val.int 0)⟩],
     attrWires := [⟨"keepdims", .int, false, "keepdims", "keepdims", false⟩, ⟨"noop_with_empty_axes", .int, false, "noop_with_empty_axes", "noop_with_empty_axes", false⟩],
     inputWires := [("data", "data"), ("axes", "axes")],
